@@ -206,6 +206,10 @@ def run(tier):
     # through the default front end (expand_includes=True scans the text line by line first)
     from .. import commentlex
     commentlex.run(ck, tier, impl.loader(expand_includes=True))
+    # every /regex/[i] lexeme over the alphabet of spec/RegexLex.tla under three white-space settings; bodies that make a complete
+    # C comment are separators
+    from .. import regexlex
+    regexlex.run(ck, "C05", tier, impl.loader(expand_includes=True), None)
     verdicts = tracecheck.validate("TraceOptions", records, "c05", ck=ck, chunk=300, canary=canary)
     for tid, v in verdicts.items():
         if v["verdict"] != "ok":
